@@ -144,9 +144,9 @@ class Evaluator:
         mod = self.prog.modules.get(mn)
         if mod is None or nm not in mod.assigns or nm in mod.functions or nm in mod.classes:
             return None
-        v = Evaluator(self.prog, mod).expr(mod.assigns[nm], {})
-        if v is not None and v[0] in ("tuple", "list") and not any(x[0] == "star" for x in v[1]):
-            return list(v[1])
+        items = flatten_display(self.prog, t)
+        if items is not None and not any(x[0] == "star" for x in items):
+            return items
         return None
 
     def _inline_helper(self, f, args, kw, _depth=[0]):
@@ -841,6 +841,32 @@ def block_paths(prog: Program, func: FuncInfo, stmts: list, params: list[str], t
 def substitute(term, sigma: dict):
     """Replace parameters by the terms in sigma."""
     return T.rewrite(term, lambda x: sigma.get(x[1]) if x[0] == "param" and x[1] in sigma else None)
+
+
+def flatten_display(prog: Program, term, _depth: int = 0):
+    """Items of a tuple/list/set display with `*X` members and references to module-level display constants of the
+    package spliced in (class tuples are often hoisted into private constants).  None when `term` is no display."""
+    if term is None or _depth > 4:
+        return None
+    if term[0] == "ref":
+        mn, _, nm = term[1].rpartition(".")
+        mod = prog.modules.get(mn)
+        if mod is None or nm not in mod.assigns or nm in mod.functions or nm in mod.classes:
+            return None
+        return flatten_display(prog, Evaluator(prog, mod).expr(mod.assigns[nm], {}), _depth + 1)
+    if term[0] not in ("tuple", "list", "set"):
+        return None
+    out = []
+    for x in term[1]:
+        if x[0] == "star":
+            inner = flatten_display(prog, x[1], _depth + 1)
+            if inner is None:
+                out.append(x)
+            else:
+                out.extend(inner)
+        else:
+            out.append(x)
+    return out
 
 
 def module_term(prog: Program, mod: Module, name: str) -> tuple:
